@@ -128,6 +128,7 @@ class Interp:
         self.max_states = max_states
         self.nstates = 0
         self.returns = []
+        self.events = []      # (call inst, state snapshot) for every call executed on some path
 
     # ------------------------------------------------------------ keys
     def key(self, st, op):
@@ -471,6 +472,12 @@ class Interp:
                     return [st]
             st.env[key] = AV(SMIN, SMAX, None, None)
             return [st]
+        if op == "atomicrmw":
+            flds = sorted(n for n, _ in i.fn.module.fields_at(i.d["ptr"].get("sty", ""), i.d["ptr"]["off"])) if i.d.get("ptr") else []
+            st.env[key] = AV(SMIN, SMAX, 0, {("R", flds[0] if flds else "mem", i.d["rmw"]): 1})
+            return [st]
+        if op == "call":
+            self.events.append((i, st.fork()))
         if op == "call":
             cal = i.callee or "?"
             if i.d.get("ty") in (None, "void"):
